@@ -76,7 +76,34 @@ func runC05(c *Ctx) {
 }
 
 // jcsRules: the RFC 8785 constant/table rules, shared with the properties that hash JCS output.
+func isPhiOrSlice(v ssa.Value) bool {
+	switch v.(type) {
+	case *ssa.Phi, *ssa.Slice, *ssa.BinOp:
+		return true
+	}
+	return false
+}
+
 func (c *Ctx) jcsRules() {
+	// these rules name values in the function's own frame: no helper inlining, whatever the calling check uses
+	savedInl := c.inlineHelpers
+	c.inlineHelpers = false
+	defer func() { c.inlineHelpers = savedInl }()
+	// canonical bytes and hashes are functions of the value: no memo, pooled hasher or other package-level state that
+	// changes after initialisation takes part in computing them
+	{
+		var entries []*ssa.Function
+		for _, e := range []*ssa.Function{c.Fn("canonicalizer", "MarshalCanonical"), c.Fn("hashing", "ComputeMultihash"), c.Fn("hashing", "CalculateModelMultihash"), c.Fn("hashing", "IsValidModelMultihash"), c.Fn("commitment", "GetCommitment"), c.Fn("commitment", "GetRevealValue")} {
+			if e != nil {
+				entries = append(entries, e)
+			}
+		}
+		if len(entries) >= 4 {
+			c.statelessRule("C05.P2", "canonicalisation and hashing", entries)
+		} else {
+			c.Unresolved("C05.P2", "canonicalizer.MarshalCanonical / hashing.* / commitment.*")
+		}
+	}
 	const pJC = "internal/jsoncanonicalizer"
 	tr := c.Fn(pJC, "Transform")
 	ntj := c.Fn(pJC, "NumberToJSON")
@@ -387,8 +414,54 @@ func (c *Ctx) jcsRules() {
 		}
 		okSign = okSign || (neg && pos)
 		c.Check("C05.K2", "sign-prefix", okSign, ntj.Pos(), "the result is the sign followed by the formatted magnitude")
+		// the digits come from strconv.FormatFloat (shortest round-trip form) and from nothing else: every string-valued
+		// call the accepted result depends on is FormatFloat — pieces are cut and joined by index, not produced or
+		// rewritten by another formatter (an integer formatter prints exact digits, a textual replace depends on the sign)
+		{
+			var foreign []string
+			nFF := 0
+			seenV := map[ssa.Value]bool{}
+			var walk func(f *ssa.Function, v ssa.Value, d int)
+			walk = func(f *ssa.Function, v ssa.Value, d int) {
+				if v == nil || seenV[v] || d > 40 {
+					return
+				}
+				seenV[v] = true
+				if cl, isC := v.(*ssa.Call); isC {
+					g := cl.Call.StaticCallee()
+					switch {
+					case g != nil && g.String() == "strconv.FormatFloat":
+						nFF++
+						return
+					case g != nil && inModule(g) && g.Blocks != nil && pkgPathOf(g) == pkgPathOf(ntj):
+						for _, r := range returnsOf(g) {
+							if len(r.Results) > 0 {
+								walk(g, returnedValue(r, 0), d+1)
+							}
+						}
+						return
+					case isStringType(cl.Type()):
+						foreign = append(foreign, calleeName(&cl.Call)+" at "+c.pos(cl.Pos()))
+						return
+					default:
+						return // integers (positions, lengths) computed from the text
+					}
+				}
+				if in, isI := v.(ssa.Instruction); isI {
+					for _, op := range in.Operands(nil) {
+						if *op != nil && (isStringType((*op).Type()) || isPhiOrSlice(*op)) {
+							walk(f, *op, d+1)
+						}
+					}
+				}
+			}
+			for _, r := range successReturns(ntj) {
+				walk(ntj, returnedValue(r, 0), 0)
+			}
+			c.Check("C05.K2", "digits-from-FormatFloat-only", len(foreign) == 0 && nFF >= 1, ntj.Pos(), fmt.Sprintf("the accepted result is assembled from %d FormatFloat result(s); other string-producing calls it depends on: %v", nFF, foreign))
+		}
 	}
-	c.Min("C05.K2", 4)
+	c.Min("C05.K2", 5)
 
 	// ---- P1 sort key
 	{
